@@ -547,6 +547,20 @@ func init() {
 				pf.Ctrl, pf.Cancellers = nil, [2]int{0, 0}
 				pf.QKinds = []int{qkStd}
 			}
+			if r.Chance(6) {
+				// lifecycle calls from two goroutines at once (a second controller next to the
+				// first): whatever they do to each other, no accepted job is lost or run twice
+				c, p := generate(r, pf)
+				var ops []Op
+				for i, n := 0, 1+r.Intn(4); i < n; i++ {
+					for k := r.Intn(4); k > 0; k-- {
+						ops = append(ops, Op{K: opYield})
+					}
+					ops = append(ops, Op{K: pickW(r, []wop{{opResume, 4}, {opPause, 2}, {opStop, 2}, {opRestart, 2}, {opPauseAndWait, 1}})})
+				}
+				p.Tasks = append(p.Tasks, ops)
+				return c, p
+			}
 			if bigBatch(pf, r, tier) {
 				// error/result workers publish into the batch's stream before the slot is given
 				// back: with more items than any fixed stream size plus the concurrency, items
